@@ -13,6 +13,7 @@ package main
 import (
 	"crypto/sha256"
 	"fmt"
+	"os"
 	"runtime"
 	"sort"
 	"strconv"
@@ -59,6 +60,8 @@ func (o *hop) line() string {
 		op = fmt.Sprintf("%s %s %d %s %d", o.kind, hx.Hex([]byte(o.key)), o.strip, o.dirTok, o.stop)
 	case "close":
 		op = "close"
+	case "flag":
+		op = "flag"
 	}
 
 	tag := "h"
@@ -188,7 +191,7 @@ func (s *seqState) answer(o *hop) string {
 
 func (s *seqState) readOnly(o *hop) bool {
 	switch o.kind {
-	case "get", "has", "iter", "iterk":
+	case "get", "has", "iter", "iterk", "flag":
 		return true
 	case "close":
 		return false
@@ -343,9 +346,27 @@ type world struct {
 	prev  sync.Map // goroutine -> the batch handle of its previous Commit (cancelled later: `defer b.Cancel()` style)
 	flush bool     // the views are behind a flushkv wrapper
 	views []viewRec
-	clock atomic.Uint64
-	cb    atomic.Uint64
+	// locals[g]: the private view goroutine g (1-based) created last with WithRealm / WithExtendedRealm while the other
+	// goroutines were using the parent (only goroutine g touches its slot)
+	locals [20]viewRec
+	clock  atomic.Uint64
+	cb     atomic.Uint64
 }
+
+// viewOf: the view a call goes through: a shared one, or (view < 0) the goroutine's private one - the shared view of the
+// same realm as long as the goroutine has none (its WithRealm answered ErrStoreClosed).
+func (w *world) viewOf(c *call) viewRec {
+	if c.view >= 0 {
+		return w.views[c.view]
+	}
+	if l := w.locals[c.g]; l.v != nil && l.realm == c.realm {
+		return l
+	}
+
+	return w.views[c.fallback]
+}
+
+var sharedRealms = []string{"", "\x01", "\x01\xff"} // realm of w.views[0..2]
 
 func newWorld(rng *hx.Rng, wrap int) *world {
 	w := &world{flush: wrap == 1 || wrap == 3}
@@ -399,13 +420,19 @@ type call struct {
 	writes []call // commit: set / del
 	yield  bool
 	g      int // 1 + index of the issuing goroutine (0: none): batch handles of earlier commits are kept per goroutine
+	// view < 0: through the goroutine's private view of realm `realm` (fallback: the shared view of that realm)
+	realm    string
+	fallback int
+	mk       string // mkview: "realm" (WithRealm(key)) or "ext" (WithExtendedRealm(key)); val = realm of the new view
 }
 
-func (w *world) keysOf(view int) []string {
+func (w *world) keysOf(view int) []string { return keysOfRealm(w.views[view].realm) }
+
+func keysOfRealm(realm string) []string {
 	var ks []string
 	for _, fk := range universe {
-		if strings.HasPrefix(fk, w.views[view].realm) {
-			ks = append(ks, fk[len(w.views[view].realm):])
+		if strings.HasPrefix(fk, realm) {
+			ks = append(ks, fk[len(realm):])
 		}
 	}
 
@@ -416,11 +443,41 @@ func genPlan(rng *hx.Rng, w *world, g, n int, allowClose bool) []call {
 	plan := make([]call, 0, n)
 	seq := 0
 	val := func() string { seq++; return string([]byte{byte(g + 1), byte(seq)}) }
+	hasLocal, localRealm := false, ""
 	for i := 0; i < n; i++ {
 		view := rng.Intn(len(w.views))
-		ks := w.keysOf(view)
+		realm := w.views[view].realm
+		if hasLocal && rng.Bool() {
+			view, realm = -1, localRealm
+		}
+		fallback := 0
+		for j, sr := range sharedRealms {
+			if sr == realm {
+				fallback = j
+			}
+		}
+		ks := keysOfRealm(realm)
 		key := hx.Pick(rng, ks)
-		c := call{view: view, key: key, yield: rng.Chance(1, 4), g: g + 1}
+		c := call{view: view, key: key, yield: rng.Chance(1, 4), g: g + 1, realm: realm, fallback: fallback}
+		if rng.Chance(1, 16) {
+			// a new private view, created from a view that other goroutines are using right now: WithRealm (absolute realm) or
+			// WithExtendedRealm (relative to the parent's realm)
+			target := hx.Pick(rng, sharedRealms)
+			c.kind, c.mk, c.key, c.val = "mkview", "realm", target, target
+			if strings.HasPrefix(target, realm) && rng.Bool() {
+				c.mk, c.key = "ext", target[len(realm):]
+			}
+			hasLocal, localRealm = true, target
+			plan = append(plan, c)
+
+			continue
+		}
+		if rng.Chance(1, 40) {
+			c.kind = "flush"
+			plan = append(plan, c)
+
+			continue
+		}
 		switch x := rng.Intn(100); {
 		case x < 24:
 			c.kind, c.val = "set", val()
@@ -481,10 +538,32 @@ func dirArgs(s string) []kvstore.IterDirection {
 // exec performs one call and returns the recorded operations (several for a commit).
 // inCallback, if not nil, is run inside the first consumer call of an iteration.
 func (w *world) exec(c *call, inCallback func()) []*hop {
-	vr := w.views[c.view]
+	vr := w.viewOf(c)
 	fk := vr.realm + c.key
 	var o hop
 	switch c.kind {
+	case "mkview":
+		// flag-only call: it loads the closed flag and touches neither the map nor any lock; the new view has its OWN, free lock
+		o = hop{kind: "flag"}
+		var nv kvstore.KVStore
+		var err error
+		o.inv = w.clock.Add(1)
+		if c.mk == "ext" {
+			nv, err = vr.v.WithExtendedRealm([]byte(c.key))
+		} else {
+			nv, err = vr.v.WithRealm([]byte(c.key))
+		}
+		o.ret = w.clock.Add(1)
+		o.out = errAns(err)
+		if err == nil {
+			w.locals[c.g] = viewRec{nv, c.val}
+		}
+	case "flush":
+		o = hop{kind: "flag"}
+		o.inv = w.clock.Add(1)
+		err := vr.v.Flush()
+		o.ret = w.clock.Add(1)
+		o.out = errAns(err)
 	case "get":
 		o = hop{kind: "get", key: fk}
 		o.inv = w.clock.Add(1)
@@ -634,6 +713,7 @@ type result struct {
 	ops      []*hop
 	timedOut bool
 	desc     string
+	plan     []string // `x …` lines: what was scheduled (printed before the verdict; the replay of a hang / crash finding)
 }
 
 func runStress(rng *hx.Rng, r *hx.Run) result {
@@ -686,6 +766,7 @@ func runStress(rng *hx.Rng, r *hx.Run) result {
 	case <-done:
 	case <-time.After(20 * time.Second):
 		res.timedOut = true
+		res.plan = append([]string{"x stress " + res.desc + ": the plans of the goroutines (some call of them never returned)"}, planLines(plans)...)
 
 		return res
 	}
@@ -1077,7 +1158,7 @@ func runSnapshot(rng *hx.Rng, r *hx.Run) result {
 		plans[i] = genPlan(rng, w, i, rng.Range(2, 5), false)
 		for j := range plans[i] { // writers only
 			if k := plans[i][j].kind; k == "get" || k == "has" || k == "iter" || k == "iterk" {
-				plans[i][j].kind, plans[i][j].key = "del", hx.Pick(rng, w.keysOf(plans[i][j].view))
+				plans[i][j].kind, plans[i][j].key = "del", hx.Pick(rng, keysOfRealm(plans[i][j].realm))
 			}
 		}
 	}
@@ -1132,6 +1213,9 @@ func emit(r *hx.Run, sub uint64, res result) {
 		return
 	}
 	r.Case(sub)
+	for _, pl := range res.plan {
+		r.Line(pl, "ok")
+	}
 	if res.timedOut {
 		r.Fail("deadlock", "goroutines did not finish within the watchdog time: "+res.desc,
 			map[string]string{"oracle": "watchdog", "scenario": strings.Fields(res.desc)[0]})
@@ -1202,6 +1286,11 @@ func emit(r *hx.Run, sub uint64, res result) {
 }
 
 func main() {
+	if pf := os.Getenv("C05_PROBE_CHILD"); pf != "" {
+		probeChild(pf) // does not return
+
+		return
+	}
 	if runtime.GOMAXPROCS(0) < 4 {
 		runtime.GOMAXPROCS(4) // the read-only, torn-value and batch scenarios need goroutines that really run in parallel
 	}
@@ -1212,6 +1301,19 @@ func main() {
 		"non-trivial = at least 3 operations invoked while an earlier one was still running and at least one Get that returned a value; " +
 		"distinct by sha256 of the history lines"
 	if lines := r.ReplayLines(); lines != nil {
+		var plan []string
+		for _, l := range lines {
+			if strings.HasPrefix(l, "x ") {
+				plan = append(plan, l)
+			}
+		}
+		if len(plan) > 0 && strings.HasPrefix(plan[0], "x probe") {
+			// the replay of a crash finding: the same plan, again in a child process
+			runProbe(r, 0, plan, 0)
+			r.Finish()
+
+			return
+		}
 		var ops []*hop
 		for _, l := range lines {
 			if o, ok := parseLine(l); ok {
@@ -1222,6 +1324,26 @@ func main() {
 		r.Finish()
 
 		return
+	}
+	// crash probes first (child processes): a fatal runtime error in-process would take every recorded history with it
+	nProbes, rounds := 2, 1500
+	if r.Tier == "thorough" {
+		nProbes, rounds = 8, 400 // -race build
+	}
+	if os.Getenv("C05_NO_PROBE") != "" { // development knob: what do the in-process scenarios find on their own?
+		nProbes = 0
+	}
+	for p := 0; p < nProbes; p++ {
+		rng, sub := r.Rng.Fork()
+		wrap := 0
+		if p%2 == 1 {
+			wrap = rng.Intn(4)
+		}
+		if runProbe(r, sub, genProbePlan(rng, wrap, rng.Range(6, 12), 24, rounds), p) {
+			r.Finish() // the in-process scenarios would die the same way
+
+			return
+		}
 	}
 	n := 2000 * r.Scale
 	if r.Tier == "thorough" {
@@ -1249,6 +1371,8 @@ func main() {
 			res = runLarge(rng, r)
 		} else if i%50 == 33 {
 			res = runCommitClose(rng, r)
+		} else if i%50 == 43 {
+			res = runFreshView(rng, r)
 		} else {
 			res = runStress(rng, r)
 		}
